@@ -11,8 +11,10 @@ ops (the same alphabet as coq/Model/SessionSub.v `op`):
   ["revoked", sid]            onMessage([35, 0, {"subscription": sid, "reason": ...}])
   ["error", rtype, req, uri]  onMessage([8, rtype, req, {}, "wamp.error.e<uri>"])
   ["event", {sub,pub,args,kwargs,publisher,topic,retained,shape}]        ["lose"]  transport lost
-H = {"det": key|null, "sig": null|[key,..], "beh": ["ret"] | ["raise", tag] | ["unsub", [label,..]]}
-    sig null: def h(*args, **kw); sig [..]: a REAL function with exactly those keyword parameters.
+H = {"det": key|null, "sig": {"fixed": n, "va": bool, "kwo": [key,..], "vk": bool}, "check": bool, "ann": null|"int"|"str",
+     "beh": ["ret"] | ["raise", tag] | ["unsub", [label,..]]}
+    a REAL function  def h([self,] q<label>_0[: ann], .., q<label>_(n-1) [, *args] [, k=.., ..] [, **kw])  is built for every handler and
+    subscribed with check_types=H["check"]   (legacy: sig null = *args, **kw; sig [..] = *args + those keyword-only names)
 outs: ["sent","sub",rid,topic] ["sent","unsub",rid,sid] ["invoke",label,withobj,args,kwargs]
       ["usererror",label,exc] ["raised",exc] ["done","s"|"g"|"u",id,res]     exc = [class, extra]
 A handler is identified by the request id of the SUBSCRIBE that registered it (= label).
@@ -58,9 +60,31 @@ def announce(obj):
             f.write(json.dumps(obj))
 
 
+def normH(H):
+    sg = H.get("sig")
+    if sg is None: sg = {"fixed": 0, "va": True, "kwo": [], "vk": True}
+    elif isinstance(sg, list): sg = {"fixed": 0, "va": True, "kwo": list(sg), "vk": False}
+    return {"det": H.get("det"), "sig": sg, "check": bool(H.get("check")), "ann": H.get("ann"), "beh": H["beh"]}
+
+
+def label_of_fn(fn):
+    """our function's label cell, also through the type_check wrapper (a closure over the function)"""
+    cell = getattr(fn, "_av_label", None)
+    if cell is not None: return cell[0]
+    for c in (getattr(fn, "__closure__", None) or ()):
+        try:
+            v = c.cell_contents
+        except ValueError:
+            continue
+        cell = getattr(v, "_av_label", None)
+        if cell is not None: return cell[0]
+    return -1
+
+
 def exc_code(e):
     from autobahn.wamp import exception as X
     if isinstance(e, UserExc): return ["User", e.tag]
+    if isinstance(e, X.TypeCheckError): return ["TypeCheck", 0]
     if isinstance(e, X.ApplicationError):
         u = e.error or ""
         m = re.fullmatch(r"wamp\.error\.e(\d+)", u)
@@ -89,6 +113,9 @@ class Runner:
         lab = getattr(e, "_av_label", None)
         if lab is None:
             m = re.search(r"\b[hm]\d*_(\d+)\(\)", str(e))
+            lab = int(m.group(1)) if m else None
+        if lab is None:            # TypeCheckError of the type_check wrapper names the offending parameter
+            m = re.search(r"'q(\d+)_\d+' expected type", str(e))
             lab = int(m.group(1)) if m else -1
         self.log.append(["usererror2", lab, exc_code(e)])
 
@@ -97,11 +124,13 @@ class Runner:
         for k in sorted(kw):
             v = kw[k]
             if isinstance(v, EventDetails):
-                owner = getattr(v.subscription.handler.fn, "_av_label", [-1])[0]
+                owner = label_of_fn(v.subscription.handler.fn)
                 out[k] = {"$det": {"owner": owner, "sub": v.subscription.id, "pub": v.publication,
                                    "publisher": v.publisher, "topic": topic_no(v.topic), "retained": v.retained}}
-            else:
+            elif isinstance(v, (int, str, bool)) or v is None:
                 out[k] = v
+            else:
+                out[k] = {"$other": repr(v)[:60]}
         return out
 
     def next_label(self):
@@ -115,7 +144,11 @@ class Runner:
         def body(args, kw):
             withobj = bool(args) and isinstance(args[0], DecoratedBase)
             rest = list(args[1:] if withobj else args)
-            runner.log.append(["invoke", cell[0], withobj, json.loads(json.dumps(rest)), runner.canon_kw(kw)])
+            try:
+                rest = json.loads(json.dumps(rest))
+            except (TypeError, ValueError):
+                rest = [repr(x)[:40] for x in rest]
+            runner.log.append(["invoke", cell[0], withobj, rest, runner.canon_kw(kw)])
             beh = H["beh"]
             if beh[0] == "raise":
                 e = UserExc(beh[1]); e._av_label = cell[0]
@@ -134,14 +167,18 @@ class Runner:
 
         selfarg = "self, " if method_index is not None else ""
         name = (f"m{method_index:02d}_{label}" if method_index is not None else f"h_{label}")
-        if H["sig"] is None:
-            src = f"def {name}({selfarg}*args, **kw):\n    return _body(({selfarg}) + args, kw)\n"
-        else:
-            ks = [KEYS[k] for k in H["sig"]]
-            params = "".join(f", {k}=_M" for k in ks)
-            pairs = ", ".join(f"('{k}', {k})" for k in ks)
-            src = (f"def {name}({selfarg}*args{params}):\n"
-                   f"    return _body(({selfarg}) + args, {{k: v for k, v in [{pairs}] if v is not _M}})\n")
+        sg = H["sig"]
+        pos = [f"q{label}_{i}" for i in range(sg["fixed"])]      # the label travels in the parameter name (TypeCheckError text)
+        params = [p + (f": {H['ann']}" if (i == 0 and H.get("ann")) else "") for i, p in enumerate(pos)]
+        if sg["va"]: params.append("*args")
+        elif sg["kwo"]: params.append("*")
+        ks = [KEYS[k] for k in sg["kwo"]]
+        params += [f"{k}=_M" for k in ks]
+        if sg["vk"]: params.append("**kw")
+        pairs = ", ".join(f"('{k}', {k})" for k in ks)
+        got_args = f"({selfarg}{''.join(p + ', ' for p in pos)})" + (" + args" if sg["va"] else "")
+        got_kw = f"dict([(k, v) for k, v in [{pairs}] if v is not _M]" + (", **kw)" if sg["vk"] else ")")
+        src = f"def {name}({selfarg}{', '.join(params)}):\n    return _body({got_args}, {got_kw})\n"
         ns = {"_body": body, "_M": _M}
         exec(src, ns)
         fn = ns[name]
@@ -174,19 +211,20 @@ class Runner:
         k = op[0]
         s = self.s
         if k == "sub":
-            H, topic = op[1], op[2]
+            H, topic = normH(op[1]), op[2]
             label = self.next_label()
             fn = self.make_fn(H, label)
-            fut = s._guard("api.subscribe", self.sess.subscribe, fn, f"com.t{topic}", self.options(H))
+            fut = s._guard("api.subscribe", self.sess.subscribe, fn, f"com.t{topic}", self.options(H),
+                           check_types=(True if H["check"] else None))
             if fut is not None: self.watch_single(fut, label)
         elif k == "subobj":
             g = self.next_label()
             ns, labels = {}, []
             for i, (H, topic) in enumerate(op[1]):
+                H = normH(H)
                 label = g + i
                 fn = self.make_fn(H, label, method_index=i)
-                opts = self.options(H)
-                fn = wamp.subscribe(f"com.t{topic}", options=opts)(fn) if opts else wamp.subscribe(f"com.t{topic}")(fn)
+                fn = wamp.subscribe(f"com.t{topic}", options=self.options(H), check_types=(True if H["check"] else None))(fn)
                 ns[fn.__name__] = fn
                 labels.append(label)
             cls = type("Decorated", (DecoratedBase,), ns)
